@@ -62,15 +62,16 @@ type carrier struct {
 }
 
 var carriers = map[string]carrier{
-	"[]byte":        {"[]byte", false, func(b []byte) any { return b }},
-	"[][]byte":      {"[][]byte", false, func(b []byte) any { return hlib.Split(b) }},
-	"*bytes.Buffer": {"*bytes.Buffer", false, func(b []byte) any { return bytes.NewBuffer(b) }},
-	"*bytes.Reader": {"*bytes.Reader", false, func(b []byte) any { return bytes.NewReader(b) }}, // WriterTo, one Write
-	"WriterTo/1":    {"WriterTo/1", false, func(b []byte) any { return &multiWriterTo{[][]byte{b}} }},
-	"WriterTo/2":    {"WriterTo/2", true, func(b []byte) any { return &multiWriterTo{hlib.Split(b)} }},
-	"Reader":        {"Reader", false, func(b []byte) any { return &plainReader{data: b} }}, // one chunk when len <= 1024
-	"Reader/frag":   {"Reader/frag", true, func(b []byte) any { return &plainReader{data: b, frag: (len(b) + 1) / 2} }},
-	"string":        {"string", false, func(b []byte) any { return string(b) }}, // only with the text codec
+	"[]byte":          {"[]byte", false, func(b []byte) any { return b }},
+	"[][]byte":        {"[][]byte", false, func(b []byte) any { return hlib.Split(b) }},
+	"*bytes.Buffer":   {"*bytes.Buffer", false, func(b []byte) any { return bytes.NewBuffer(b) }},
+	"*bytes.Reader":   {"*bytes.Reader", false, func(b []byte) any { return bytes.NewReader(b) }}, // WriterTo, one Write
+	"WriterTo/1":      {"WriterTo/1", false, func(b []byte) any { return &multiWriterTo{[][]byte{b}} }},
+	"WriterTo/2":      {"WriterTo/2", true, func(b []byte) any { return &multiWriterTo{hlib.Split(b)} }},
+	"Reader":          {"Reader", false, func(b []byte) any { return &plainReader{data: b} }}, // one chunk when len <= 1024
+	"Reader/frag":     {"Reader/frag", true, func(b []byte) any { return &plainReader{data: b, frag: (len(b) + 1) / 2} }},
+	"string":          {"string", false, func(b []byte) any { return string(b) }}, // only with the text codec
+	"*strings.Reader": {"*strings.Reader", false, func(b []byte) any { return strings.NewReader(string(b)) }},
 }
 
 // ---- pipelines ----
@@ -93,6 +94,9 @@ var pipes = map[string]pipe{
 		binary.BigEndian.PutUint16(h, uint16(len(b)))
 		return append(h, b...)
 	}},
+	"text": {"text", func() []netty.Handler {
+		return []netty.Handler{format.TextCodec()}
+	}, func(b []byte) []byte { return b }},
 	"varint": {"varint", func() []netty.Handler {
 		return []netty.Handler{frame.VarintLengthFieldCodec(1 << 20)}
 	}, func(b []byte) []byte {
@@ -287,6 +291,9 @@ func build(tier string) []*explore.Scenario {
 		{"none", [][]string{{"*bytes.Reader", "WriterTo/1"}, {"[][]byte"}}, [][]int{{10, 2500}, {1025}}},
 		{"none", [][]string{{"Reader"}, {"Reader", "[]byte"}}, [][]int{{1024}, {10, 10}}},
 		{"none", [][]string{{"WriterTo/2"}, {"[]byte"}}, [][]int{{10}, {10}}},
+		// readers that are also io.WriterTo must go out as ONE write however large they are
+		{"none", [][]string{{"*bytes.Reader"}, {"*strings.Reader"}}, [][]int{{2500}, {1025}}},
+		{"text", [][]string{{"string"}, {"string", "[]byte"}}, [][]int{{2500}, {1025, 10}}},
 		{"none", [][]string{{"Reader"}, {"[]byte"}}, [][]int{{2500}, {10}}},
 		{"none", [][]string{{"Reader/frag"}, {"[][]byte"}}, [][]int{{10}, {10}}},
 		{"delimiter+text", [][]string{{"string"}, {"string"}}, [][]int{{10}, {10}}},
